@@ -283,6 +283,58 @@ def _slot_worker(a):
     return res
 
 
+def _many_stray_worker(a):
+    """More services in the file than the daemon takes on (it refuses those its per-client masks have no bit for): a reply that
+    carries a live tag but comes from a refused service - or from any service the client is not waiting on - changes nothing."""
+    b, n, seed = a["build"], a["n"], a["seed"]
+    rng = random.Random(seed)
+    protos = ["login", "dronecheck", "login-ipr", "combined"]
+    svcs = [("s%02d.example.net" % k, protos[(k + seed) % 4] if seed % 2 else "login") for k in range(n)]
+    rng.shuffle(svcs)
+    cfg = proto.Config(svcs, timeout=3600)
+    taken = set(x[0] for x in sorted(svcs, key=lambda x: x[0].lower())[:32])
+    refused = [x[0] for x in svcs if x[0] not in taken]
+    s = proto.Session(b, cfg, leaks=True)
+    nstray = 0
+    try:
+        for cid in (5, 6, 7, 8):
+            evs = [{"t": "announce", "id": cid, "ip": "192.0.2.%d" % cid, "port": 1000 + cid},
+                   {"t": "host", "id": cid, "name": "h%d.example" % cid}, {"t": "ident", "id": cid, "name": "id%d" % cid},
+                   {"t": "nick", "id": cid, "name": "nick%d" % cid}, {"t": "userinfo", "id": cid, "user": "u%d" % cid, "real": "Real %d" % cid},
+                   {"t": "password", "id": cid, "text": "%s acct%d pw%d" % (rng.choice(["+x", "+!", "-x"]), cid, cid)}]
+            tail = evs[1:]
+            if cid % 2 == 0:
+                tail = tail[:-1]        # no password: only the services that need none are asked
+            rng.shuffle(tail)
+            for ev in evs[:1] + tail:
+                s.do(ev)
+            st = s.open.get(cid)
+            while st and st["awaiting"] and cid in s.open and not s.dead:
+                if rng.random() < 0.5:
+                    # not owed: from a service the daemon refused, or from one that has answered already
+                    cands = refused + [x for x in taken if x not in st["awaiting"]]
+                    sv = rng.choice(refused if rng.random() < 0.7 else cands)
+                    s.do({"t": "reply", "svc": sv, "tag": st["tag"], "text": rng.choice(["OK intruder", "NO go away", "MORE prove it", "AGAIN x", "OK"])} if rng.random() < 0.85
+                         else {"t": "unlinked", "svc": sv, "tag": st["tag"], "text": "Server not online"})
+                    nstray += 1
+                else:
+                    sv = rng.choice(sorted(st["awaiting"]))
+                    s.do({"t": "reply", "svc": sv, "tag": st["tag"], "text": rng.choice(["OK", "OK", "OK", "OK real%d" % cid])})
+                st = s.open.get(cid)
+            if cid in s.open:
+                s.do({"t": "hurry", "id": cid})
+        s.do({"t": "stats"})
+        s.finish()
+    except Exception:
+        s.kill()
+        raise
+    r = prun.post(s, b, cfg, ["C04", "C02", "C05"], seed, do_shrink=False, want_sample=False)
+    r["viol"] = [("C04", rule, sig, text, wit) for (p, rule, sig, text, wit) in r["viol"]]
+    r["stats"] = {"many_service_tables": 1, "strays_next_to_full_table": nstray, "stray_kinds": {}}
+    r["inconc"] = ["daemon crashed in a many-service table run (%s in %s); see C08" % (k_, f_) for (k_, f_, e_, t_) in r["crash"] if k_ != "leak"]
+    return r
+
+
 def run(chk, tier, scale=1.0):
     b = prun.build_daemon("c04-" + tier)
     n = int((320 if tier == "quick" else 5000) * scale)
@@ -308,6 +360,10 @@ def run(chk, tier, scale=1.0):
     results = vcommon.pmap(_worker, jobs, chunksize=2)
     results += vcommon.pmap(_slot_worker, [dict(build=b, seed=chk.seed * 1000 + k) for k in range(int((24 if tier == "quick" else 400) * scale))])
     results += vcommon.pmap(_wrap_worker, [dict(build=b, n=n_, seed=chk.seed * 10 + k) for k, n_ in enumerate([256, 4096, 65536, 65536] + ([1 << 20] if tier != "quick" else []))])
+    import build as buildmod
+    bplain = buildmod.build_daemon(buildmod.fresh_dir("c04p-" + tier), "plain")
+    results += vcommon.pmap(_many_stray_worker, [dict(build=(bplain if k % 2 else b), n=n_, seed=chk.seed * 100 + k)
+                                                 for k, n_ in enumerate(([33, 34, 36, 40, 33, 35, 38, 64] * (1 if tier == "quick" else 12)))])
     for r in results:
         chk.add_case(r["hash"], r["nontrivial"])
         if r.get("sample"):
@@ -324,7 +380,7 @@ def run(chk, tier, scale=1.0):
                 "NOT owed at their position (stale serial of a departed instance of a reused id, departed client, live tag with an unknown / unconfigured / already answered / "
                 "differently-cased service, a service that a SIGUSR1 reload added after the query went to another one, malformed tags %x %x_ zz_1 %x_1x %x_1_2 ...), every reply kind; the step of the inserted line must produce no output and every "
                 "later step exactly the same output (statistics lines included, class timing lines excluded); on a difference the run is bisected to one stray; "
-                "distinct = base history; non-trivial = at least one stray named a live id")
+                "tables of 33-64 services (the daemon takes on 32): replies with a live tag from the refused ones, on the sanitized and the plain build (monitor); distinct = base history; non-trivial = at least one stray named a live id")
     chk.require("stray_lines_inserted", 5000 * min(1.0, scale))
     chk.require("strays_stale_serial", 300 * min(1.0, scale))
     chk.require("strays_wrong_service", 300 * min(1.0, scale))
